@@ -480,6 +480,12 @@ def literal(e, truth=True):
             lt, rt = unparse(l), unparse(r)
             if cop is ast.Eq and lt > rt:
                 lt, rt = rt, lt
+            elif cop is ast.Is:
+                # identity is symmetric: constants go right (`x is None`), otherwise lexicographic order
+                if isinstance(l, ast.Constant) and not isinstance(r, ast.Constant):
+                    lt, rt = rt, lt
+                elif not isinstance(l, ast.Constant) and not isinstance(r, ast.Constant) and lt > rt:
+                    lt, rt = rt, lt
             return f"{lt} {_SYM[cop]} {rt}", (truth if pol else not truth)
     return unparse(e), truth
 
